@@ -179,6 +179,9 @@ func (e *Exec) run(ct *Contract, fi *FuncInfo, lit *ast.FuncLit) {
 				tv, err := types.Eval(p.fset, fi.Pkg.Types, 0, ts)
 				if err == nil {
 					subst[tp] = tv.Type
+				} else if gt, err2 := p.parseGhostType(ts, fi.Pkg); err2 == nil && gt.G != nil {
+					// a type of a package this one does not import (pkgname.Type of another loaded package)
+					subst[tp] = gt.G
 				} else {
 					e.errorf("instantiate %s=%s: %v", tp.Obj().Name(), ts, err)
 				}
